@@ -785,6 +785,44 @@ pub fn check_dd_sample(prop: &str, case: &Case, r: &Routed, x: &[f64], acc: &mut
     // (B) u and v against the exact polynomials at the double-double parameters
     let ex_u = u_poly(&case.comb, &xq);
     let ex_f = case.fpoly.eval(&xq);
+    // (D) the Gaussian vectors are the Box-Muller transform of their pairs IN THE CALLER'S SCALAR TYPE: recomputed here in
+    //     double-double arithmetic (own ln, sqrt, sin, cos and a 107-bit pi)
+    if c19 {
+        let gr = groups(case);
+        let d = case.g.dim;
+        let two = DD::from(2.0);
+        let pi = DD { hi: std::f64::consts::PI, lo: 1.2246467991473532e-16 };
+        'bm: for l in 0..nl {
+            for c in 0..d {
+                let idx = l * d + c;
+                let pair = gr.tail + 2 * (idx / 2);
+                if pair + 1 >= x.len() {
+                    break 'bm;
+                }
+                let (a, b) = (DD::from(x[pair]), DD::from(x[pair + 1]));
+                if !(x[pair] > 1e-300 && x[pair] < 1.0) {
+                    continue;
+                }
+                let r = DD::sqrt_dd_pub(&(DD::from(-2.0) * DD::ln_dd(&a)));
+                let (sn, cs) = DD::sincos_dd(&(two * pi * b));
+                let want = if idx % 2 == 0 { cs * r } else { sn * r };
+                let got = m.q_vectors[l][c];
+                let diff = (got - want).hi.abs();
+                let scale = r.hi.abs().max(1e-300);
+                acc.inc("dd_sampler_box_muller_judged");
+                acc.max("dd_sampler_box_muller_units_2^-90", diff / scale / 2f64.powi(-90));
+                if !(diff <= 2f64.powi(-90) * scale) {
+                    acc.violate(
+                        key("wide type: Box-Muller"),
+                        "a higher-precision type yields correspondingly more precise results",
+                        format!("double-double Gaussian component {idx} differs from the double-double Box-Muller transform of its pair by {diff:e} (radius {scale:e}); an f64 constant or function in the transform leaves about 1e-16"),
+                        pc(),
+                    );
+                    return true;
+                }
+            }
+        }
+    }
     // (C) the Gaussian map of the loop momenta in the caller's scalar type, routing-free form:
     //     Σ_e x_e (|q_e(k)|² + m_e²) = V (1 + |q|² / 2λ), every quantity taken from the double-double outputs
     {
